@@ -1,2 +1,3 @@
 //! Independent transcriptions of the published definitions (generic over `Num`, so they run symbolically and natively).
 pub mod rgbspace;
+pub mod w3c_blend;
